@@ -2,6 +2,7 @@
 from __future__ import annotations
 
 import itertools
+import operator
 
 from props.common import I128_MAX, I128_MIN, base_of, outcome, show
 
@@ -322,6 +323,27 @@ def run(ctx):
         sl = a[0:2]; sl[0] = cls.from_ticks(77)
         if a[0].ticks != 0:
             ctx.violation(what="slice result aliases the array", cls=acls.__name__, observed=a[0].ticks, required=0)
+    # ---- equality of whole arrays is equality of the element lists: against arrays of the same class, of the OTHER class holding the
+    #      same tick counts, lists, tuples and unrelated objects, in both operand orders, with == and != --------------------------------
+    for n_el in (0, 1, 3):
+        ticks_ = [rng.choice([0, 1, -1, (1 << 64) + 5, -(1 << 70)]) for _ in range(n_el)]
+        dta = bt.DateTimeArray([bt.DateTime.from_ticks(t) for t in ticks_]); tda = bt.TimeDeltaArray([bt.TimeDelta.from_ticks(t) for t in ticks_])
+        dtl, tdl = list(dta), list(tda)
+        pool = [("DateTimeArray", dta, dtl), ("TimeDeltaArray", tda, tdl), ("DateTimeArray copy", bt.DateTimeArray(dtl), dtl), ("TimeDeltaArray copy", bt.TimeDeltaArray(tdl), tdl),
+                ("list of DateTime", dtl, dtl), ("list of TimeDelta", tdl, tdl), ("tuple", tuple(tdl), tuple(tdl)), ("None", None, None), ("int", 5, 5)]
+        for (la, xa, ma), (lb, xb, mb) in itertools.product(pool, repeat=2):
+            if "Array" not in la and "Array" not in lb:
+                continue
+            both_arrays = "Array" in la and "Array" in lb
+            # an array equals another array of its own class with equal elements; it is not a list / tuple and not an array of the other class
+            want = both_arrays and la.split()[0] == lb.split()[0] and ma == mb
+            if n_el == 0 and both_arrays and la.split()[0] != lb.split()[0]:
+                continue                                     # two empty arrays of different classes: no element decides it
+            o1, o2 = outcome(operator.eq, xa, xb), outcome(operator.ne, xa, xb)
+            ctx.case(("array-eq", n_el, la, lb))
+            if o1 != ("ok", want) or o2 != ("ok", not want):
+                ctx.violation(what="array equality is not equality of the element lists", left=la, right=lb, elements=n_el, ticks=str(ticks_)[:80],
+                              observed=f"== {show(o1)[:40]}, != {show(o2)[:40]}", required=f"== {want}, != {not want}")
     # ---- the two Lean sides --------------------------------------------------------------------------------------------------
     for drv, label in (("drivers/C17.lean", "implementation model"), ("drivers/C17spec.lean", "list specification")):
         res = ctx.model(lines, driver=drv)
